@@ -14,6 +14,7 @@
 
 #include "addrspace.h"
 #include "as_endian.h"
+#include "bpemu.h"
 #include "cmdarg.h"
 #include "fileformat.h"
 #include "ioerrs.h"
@@ -127,6 +128,17 @@ Word Granularity(Byte Header, Byte Segment) {
     }
 }
 
+/* read one byte of a record header; a file that ends here is truncated:
+   fread() then leaves errno alone, so ChkIO() alone would return and the
+   caller would go on with stale data */
+
+static void ReadHeaderByte(Byte* pDest, char const* Name, FILE* f) {
+    if (fread(pDest, 1, 1, f) != 1) {
+        ChkIO(Name);
+        FormatError(Name, "unexpected end of file");
+    }
+}
+
 void ReadRecordHeader(
         Byte* Header, Byte* CPU, Byte* Segment, Byte* Gran, char const* Name, FILE* f) {
 #ifdef _WIN32
@@ -141,26 +153,23 @@ void ReadRecordHeader(
     fseek(f, pos, SEEK_SET);
 #endif
 
-    if (fread(Header, 1, 1, f) != 1) {
-        ChkIO(Name);
-    }
+    ReadHeaderByte(Header, Name, f);
     if ((*Header != FileHeaderEnd) && (*Header != FileHeaderStartAdr)) {
         if ((*Header == FileHeaderDataRec) || (*Header == FileHeaderRDataRec)
             || (*Header == FileHeaderRelocRec) || (*Header == FileHeaderRRelocRec)) {
-            if (fread(CPU, 1, 1, f) != 1) {
-                ChkIO(Name);
-            }
-            if (fread(Segment, 1, 1, f) != 1) {
-                ChkIO(Name);
-            }
-            if (fread(Gran, 1, 1, f) != 1) {
-                ChkIO(Name);
+            ReadHeaderByte(CPU, Name, f);
+            ReadHeaderByte(Segment, Name, f);
+            ReadHeaderByte(Gran, Name, f);
+            if ((*Segment >= SegCount) || (*Gran == 0)) {
+                FormatError(Name, "invalid segment or granularity");
             }
         } else if (*Header <= 0x7f) {
             *CPU     = *Header;
             *Header  = FileHeaderDataRec;
             *Segment = SegCode;
             *Gran    = Granularity(*CPU, *Segment);
+        } else if (*Header != FileHeaderRelocInfo) {
+            FormatError(Name, "unknown record type");
         }
     }
 }
@@ -199,9 +208,10 @@ void WriteRecordHeader(
 }
 
 void SkipRecord(Byte Header, char const* Name, FILE* f) {
-    int      Length;
-    LongWord Addr, RelocCount, ExportCount, StringLen;
-    Word     Len;
+    LargeWord Length;
+    LongWord  Addr, RelocCount, ExportCount, StringLen;
+    Word      Len;
+    long      Pos;
 
     switch (Header) {
     case FileHeaderStartAdr:
@@ -211,29 +221,28 @@ void SkipRecord(Byte Header, char const* Name, FILE* f) {
         Length = 0;
         break;
     case FileHeaderRelocInfo:
-        if (!Read4(f, &RelocCount)) {
+        if (!Read4(f, &RelocCount) || !Read4(f, &ExportCount) || !Read4(f, &StringLen)) {
             ChkIO(Name);
+            FormatError(Name, "unexpected end of file");
         }
-        if (!Read4(f, &ExportCount)) {
-            ChkIO(Name);
-        }
-        if (!Read4(f, &StringLen)) {
-            ChkIO(Name);
-        }
-        Length = (16 * RelocCount) + (16 * ExportCount) + StringLen;
+        Length = ((LargeWord)16 * RelocCount) + ((LargeWord)16 * ExportCount) + StringLen;
         break;
     default:
-        if (!Read4(f, &Addr)) {
+        if (!Read4(f, &Addr) || !Read2(f, &Len)) {
             ChkIO(Name);
-        }
-        if (!Read2(f, &Len)) {
-            ChkIO(Name);
+            FormatError(Name, "unexpected end of file");
         }
         Length = Len;
         break;
     }
 
-    if (fseek(f, Length, SEEK_CUR) != 0) {
+    /* the record must end inside the file (fseek() beyond the end succeeds) */
+
+    Pos = ftell(f);
+    if ((Pos < 0) || (Length > (LargeWord)(FileSize(f) - Pos))) {
+        FormatError(Name, "record exceeds file");
+    }
+    if (fseek(f, (long)Length, SEEK_CUR) != 0) {
         ChkIO(Name);
     }
 }
@@ -242,7 +251,7 @@ PRelocInfo ReadRelocInfo(FILE* f) {
     PRelocInfo   PInfo;
     PRelocEntry  PEntry;
     PExportEntry PExp;
-    Boolean      OK = FALSE;
+    Boolean      OK = FALSE, RelocsComplete;
     LongWord     StringLen, StringPos;
     LongInt      z;
 
@@ -275,7 +284,7 @@ PRelocInfo ReadRelocInfo(FILE* f) {
                             if (!Read8(f, &PEntry->Addr)) {
                                 break;
                             }
-                            if (!Read4(f, &StringPos)) {
+                            if (!Read4(f, &StringPos) || (StringPos >= StringLen)) {
                                 break;
                             }
                             PEntry->Name = PInfo->Strings + StringPos;
@@ -286,9 +295,12 @@ PRelocInfo ReadRelocInfo(FILE* f) {
 
                         /* read export entries */
 
-                        for (z = 0, PExp = PInfo->ExportEntries; z < PInfo->ExportCount;
+                        RelocsComplete = (z == (LongInt)PInfo->RelocCount);
+
+                        for (z = 0, PExp = PInfo->ExportEntries;
+                             RelocsComplete && (z < (LongInt)PInfo->ExportCount);
                              z++, PExp++) {
-                            if (!Read4(f, &StringPos)) {
+                            if (!Read4(f, &StringPos) || (StringPos >= StringLen)) {
                                 break;
                             }
                             PExp->Name = PInfo->Strings + StringPos;
@@ -302,8 +314,9 @@ PRelocInfo ReadRelocInfo(FILE* f) {
 
                         /* read strings */
 
-                        if (z == PInfo->ExportCount) {
-                            OK = ((fread(PInfo->Strings, 1, StringLen, f)) == StringLen);
+                        if (RelocsComplete && (z == (LongInt)PInfo->ExportCount)) {
+                            OK = ((fread(PInfo->Strings, 1, StringLen, f)) == StringLen)
+                                 && ((StringLen == 0) || (PInfo->Strings[StringLen - 1] == '\0'));
                         }
                     }
                 }
